@@ -32,6 +32,12 @@ def lit_forms(v):
         out.append(("raw-dq", 'r"' + v + '"'))
     if "'''" not in v and "\\" not in v and not v.endswith("'"):
         out.append(("triple-raw", "r'''" + v + "'''"))
+    # upper-case and mixed prefixes mean the same as their lower-case spellings
+    if "'" not in v and "\\" not in v and "\n" not in v:
+        out.append(("raw-sq-upper", "R'" + v + "'"))
+    if '"""' not in v and "\\" not in v and not v.endswith('"'):
+        out.append(("triple-raw-upper", 'R"""' + v + '"""'))
+    out.append(("repr-upper-u", "U" + repr(v)) if repr(v)[0] in "'\"" else ("repr", repr(v)))
     d = '"' + v.replace("\\", "\\\\").replace('"', '\\"').replace("\n", "\\n").replace("\t", "\\t") + '"'
     out.append(("dq-escaped", d))
     if '"""' not in v and "\\" not in v and not v.endswith('"'):
@@ -205,7 +211,7 @@ class C04:
                     continue
             except Exception:
                 continue
-            raw = kind.startswith("raw") or kind == "triple-raw"
+            raw = kind.startswith("raw") or kind.startswith("triple-raw")
             if not raw and ("$" in v or "~" in v):
                 continue
             src = line(lit)
@@ -237,6 +243,15 @@ class C04:
             for cmdname, path in (("rec", "threaded_alias"), ("argv_dump", "real_child")):
                 src = f"{cmdname}! {text}\n"
                 self.judge(rec, "macro", path, src, self.run(src), [text.strip()], text, "only")
+        # bare words: each white-space separated word is one argument, whatever ordinary characters it is made of
+        for _ in range(30):
+            ws = []
+            for _w in range(rng.randint(1, 3)):
+                w = rng.choice(["a", "b1", "x"]) + "".join(rng.choice(["a", "Z", "9", "-", ".", "/", ":", "+", "%", "\\", "\u20ac", "\U0001F600", "#", "\xe9", "\xdf", "_", "\u2713", "\xb0", "^"]) for _c in range(rng.randint(1, 5))) + rng.choice(["c", "7", "q"])
+                ws.append(w)
+            for cmdname, path in (("rec", "threaded_alias"), ("argv_dump", "real_child")):
+                src = f"{cmdname} " + " ".join(ws) + "\n"
+                self.judge(rec, "bare-words", path, src, self.run(src), ws, " ".join(ws), "only")
         # @$(): whitespace split of the producer's output, no further globbing / expansion
         for out in ["* $HOME ~ a\\ b\n", "f* x.py\n", "a  b\tc\nd\n", "$DEFINED_VAR ${HOME} ~/x\n", "'q' \"d\"\n", "{a,b} [f]1 ?1\n"]:
             exp = out.split()
@@ -246,7 +261,7 @@ class C04:
         # documented expansion of non-raw literals and bare words
         home = self.XSH.env["HOME"]
         for lit, exp in [("'$DEFINED_VAR'", "dv al*"), ("\"$DEFINED_VAR/x\"", "dv al*/x"), ("'$NOPE_UNDEFINED'", "$NOPE_UNDEFINED"), ("'~/x'", os.path.join(home, "x")), ("'~'", home),
-                         ("r'$DEFINED_VAR'", "$DEFINED_VAR"), ("r'~/x'", "~/x"), ("$DEFINED_VAR", "dv al*"), ("~/x", os.path.join(home, "x")), ("$DEFINED_VAR/y", "dv al*/y")]:
+                         ("r'$DEFINED_VAR'", "$DEFINED_VAR"), ("r'~/x'", "~/x"), ("R'$DEFINED_VAR'", "$DEFINED_VAR"), ('R"~/x"', "~/x"), ("R'--p=~/x:~/y'", "--p=~/x:~/y"), ("$DEFINED_VAR", "dv al*"), ("~/x", os.path.join(home, "x")), ("$DEFINED_VAR/y", "dv al*/y")]:
             for cmdname, path in (("rec", "threaded_alias"), ("argv_dump", "real_child")):
                 src = f"{cmdname} {lit}\n"
                 self.judge(rec, "documented-expansion", path, src, self.run(src), [exp], lit, "only")
